@@ -347,6 +347,9 @@ func c14body(ri *simcheck.RunInfo, s C14Scenario) {
 	fmt.Fprintf(h, "%s|%x|%d|%d", key, sim.TraceHash(), len(s.History), len(s.Parallel))
 	ri.Hash = h.Sum64()
 	ri.Steps = sim.Steps
+	if sim.Resumes > 0 {
+		ri.Probes["woke-outside-the-baton-and-requeued"] += int(sim.Resumes)
+	}
 	if sim.Preempts > 0 {
 		ri.Faults["sched-preempt-between-sync-ops"] += int(sim.Preempts)
 	}
